@@ -56,7 +56,16 @@ package store
 //@   at call os.Lstat assert[address] arg0 == addr(s.root, old(nhex)) && nhex == old(nhex) + 2
 
 // A well-formed storage, as Allocate creates it and Write keeps it.
-//@ pred wfstorage(st) = st != nil && st.store != nil && st.buffer != nil && st.storage != nil && st.hasher != nil && 0 <= st.currentSize && st.currentSize <= st.store.maximumFileSize
+//@ pred wfstorage(st) = st != nil && st.store != nil && st.storage != nil && 0 <= st.currentSize && st.currentSize <= st.store.maximumFileSize
+
+// Allocate: a fresh, empty, well-formed storage of this store, or an error.
+//@ func (*Store).Allocate
+//@   requires s != nil && 0 <= s.maximumFileSize
+//@   ensures[wf] result1 == nil ==> wfstorage(result0) && fresh(result0) && result0.store == s && result0.currentSize == 0
+//@   ensures[wf] result1 != nil ==> result0 == nil
+//@   ensures[refuse] !old(s.initialized) ==> result1 != nil
+//@   at call stream.NewHashedWriter assert[hashed] arg0 == box(storage) && arg1 == hasher
+//@   at call bufio.(*Writer).Reset assert[hashed] arg0 == buffer && arg1 == writer
 
 // Write: refused without touching the file when it would exceed the maximum
 // file size, otherwise the data is handed unchanged to the buffered, hashing
